@@ -427,6 +427,80 @@ def r8_stream_loops_terminate(chk, prog, rule='R8'):
     return n
 
 
+def r11_downcast_provenance(chk, prog, rule='R11'):
+    """R11: a pointer to the argument base class is static_cast to the sub-group class only if it comes out of the
+    container that holds nothing but sub-group arguments.  The sub-group container is read from the source: the
+    ArgumentContainer member of Handler whose addArgument() is given TypedArgSubGroup objects.  For every such cast
+    in a Handler member, every definition of the operand that reaches the cast (CFG, no other definition in between)
+    is a lookup in that container or a null pointer - a pointer from the container of normal arguments would make
+    obj() return the bytes of a destination slot as a Handler*."""
+    H = 'celma::prog_args::Handler'
+    SG = 'TypedArgSubGroup'
+    fns = [f for f in prog.functions if f.classq == H and f.body is not None]
+    sub_conts = set()
+    for f in fns:
+        for c in f.calls():
+            if callee_is(c, 'addArgument') and 'ArgumentContainer' in (c.get('callee') or ''):
+                a = call_args(c)
+                if a and SG in (strip_all_casts(a[0]).get('t') or ''):
+                    sub_conts.add(field_name(object_of(c)))
+    sub_conts.discard(None)
+    chk.require(len(sub_conts) == 1, 'container of the sub-group arguments: %s' % sorted(sub_conts))
+    sub = next(iter(sub_conts))
+
+    def origins(e):
+        e = strip_all_casts(e)
+        k = e.get('k')
+        if k in ('ParenExpr', 'ExprWithCleanups', 'MaterializeTemporaryExpr') and len(children(e)) == 1:
+            return origins(children(e)[0])
+        if k == 'ConditionalOperator':
+            return origins(children(e)[1]) | origins(children(e)[2])
+        if k in ('CXXNullPtrLiteralExpr', 'GNUNullExpr') or (k == 'IntegerLiteral' and e.get('val') == 0):
+            return {'null'}
+        if k in CALL_KINDS and (callee_is(e, 'findArg') or callee_is(e, 'findExactArg')):
+            return {'lookup in ' + str(field_name(object_of(e)))}
+        return {'another expression (line %s)' % e.get('l')}
+    n = 0
+    for f in fns:
+        casts = [x for x in f.walk() if x.get('k') == 'CXXStaticCastExpr' and x.get('ck') == 'BaseToDerived'
+                 and SG in (x.get('t') or '')]
+        for c in casts:
+            n += 1
+            v = strip_all_casts(children(c)[0])
+            if v.get('k') != 'DeclRefExpr' or v['ref'].get('sto') not in ('local', 'param'):
+                src = origins(v)
+            else:
+                did = v['ref'].get('did')
+                defs = []      # (node that is the CFG element, defining expression)
+                for x in f.walk():
+                    if x.get('k') == 'DeclStmt':
+                        for d in x.get('decls', []):
+                            if d.get('did') == did and isinstance(d.get('init'), dict):
+                                defs.append((x, d['init']))
+                    elif x.get('k') == 'BinaryOperator' and x.get('op') == '=':
+                        l = strip_all_casts(children(x)[0])
+                        if l.get('k') == 'DeclRefExpr' and l['ref'].get('did') == did:
+                            defs.append((x, children(x)[1]))
+                cfg = f.cfg
+                cpos = cfg.position(c)
+                dpos = {cfg.position(d): (d, e) for d, e in defs}
+                src = set()
+                if v['ref'].get('sto') == 'param':
+                    src.add('a parameter')
+                for p_, (d, e) in dpos.items():
+                    if p_ is None:
+                        continue
+                    seen = cfg.reach((p_[0], p_[1] + 1), lambda pos, el: pos in dpos and pos != p_)
+                    if cpos in seen:
+                        src |= origins(e)
+                if not src:
+                    src.add('no definition found')
+            bad = sorted(o for o in src if o not in ('null', 'lookup in ' + sub))
+            chk.check(not bad, rule, f.name, 'the pointer cast to the sub-group class comes out of the sub-group '
+                      'container %s' % sub, f.loc(c), 'it may come from: %s' % ', '.join(bad))
+    chk.require(n >= 2, 'downcasts to the sub-group class in Handler: %d' % n)
+
+
 def run(chk):
     drv = os.path.join(VERIF, 'drivers', 'prog_args_dest.cpp')
     units = units_matching('library/prog_args/', 'library/appl/arg_string_2_array.cpp', 'library/common/') + [drv]
@@ -467,6 +541,8 @@ def run(chk):
     r8_stream_loops_terminate(chk, prog)
     chk.rule('R10', 'callables that outlive their creating function capture no local by reference', 5)
     r10_escaping_lambdas(chk, prog)
+    chk.rule('R11', 'downcasts to the sub-group argument class only of pointers from the sub-group container', 2)
+    r11_downcast_provenance(chk, prog)
     chk.rule('R6', 'ArgListIterator: the cursor invariant (four cases) is established and preserved; every argv[ i] '
              'and word[ j] access is inside', 40)
     from . import c04_cursor
